@@ -578,6 +578,10 @@ class BaseNode402(RemoteNode):
         try:
             controlword = State402.TRANSITIONTABLE[(from_state, target_state)]
         except KeyError:
+            if State402.next_state_indirect(from_state) is not None:
+                # An automatic transition has taken the drive elsewhere since
+                # this step was planned, the caller plans again from there
+                return False
             raise ValueError(
                 f'Illegal state transition from {from_state} to {target_state}')
         if controlword & State402.CW_SWITCH_ON_DISABLED:
